@@ -246,3 +246,86 @@ Definition survivors (s : st) (pre : content) : list (option content) :=
   end.
 Definition is_prefix (p b : content) : Prop := exists q, b = p ++ q.
 Definition bufc (s : st) : content := ocontent (hbuf s).
+
+(* ==== several Logs per Logger ====================================================================
+   Logger.reopen/prepare/log/flush/cycle/close each loop over self.logs, so one logger operation is a sequence
+   of PHASES, each phase visiting the logs in order.  Every log keeps its own disk state (an [st]); the
+   logger's variables (store stamp, status, flushStamp, cycleStamp) and the crash fuel are global and the
+   fuel is threaded through the logs in visiting order, so a crash point is again ANY primitive file
+   operation of ANY log.  (The per-log copies of now/active/flushStamp/cycleStamp in [st] are unused here.) *)
+Record mst := {
+  lgs : list st;
+  gnow : Z; gactive : bool; gflush : Z; gcycle : Z;
+  gfu : option nat; gcr : bool
+}.
+
+Fixpoint mapthread (f : nat -> st -> st) (i : nat) (ls : list st) (fu : option nat) (cr : bool)
+  : list st * option nat * bool :=
+  match ls with
+  | [] => ([], fu, cr)
+  | s :: r =>
+      let s' := f i (set_fuel s fu cr (fault s)) in
+      let '(r', fu', cr') := mapthread f (S i) r (fuel s') (crashed s') in
+      (s' :: r', fu', cr')
+  end.
+
+Definition mphase (f : nat -> st -> st) (m : mst) : mst :=
+  let '(l', fu, cr) := mapthread f O (lgs m) (gfu m) (gcr m) in
+  {| lgs := l'; gnow := gnow m; gactive := gactive m; gflush := gflush m; gcycle := gcycle m;
+     gfu := fu; gcr := cr |}.
+
+Definition mset (m : mst) (t : Z) (a : bool) (fs cs : Z) : mst :=
+  {| lgs := lgs m; gnow := t; gactive := a; gflush := fs; gcycle := cs; gfu := gfu m; gcr := gcr m |}.
+
+Definition write_i (szss : list (list Z)) (i : nat) (s : st) : st :=
+  match nth i szss [] with [] => s | szs => prim (f_write_recs szs) s end.
+
+(* Logger.log: every log's action; Logger.flush() of EVERY log on the flush timer; Logger.cycle() on the
+   cycle timer *)
+Definition mlogger_log (c : cfg) (szss : list (list Z)) (m : mst) : mst :=
+  let m1 := mphase (write_i szss) m in
+  let m2 := if flushP c <=? gnow m1 - gflush m1
+            then mset (mphase (fun _ => prim f_flush) m1) (gnow m1) (gactive m1) (gnow m1) (gcycle m1)
+            else m1 in
+  match keep c with
+  | O => m2
+  | S _ => if cycleP c <=? gnow m2 - gcycle m2
+           then mset (mphase (fun _ => log_cycle c (fsize c)) m2) (gnow m2) (gactive m2) (gflush m2) (gnow m2)
+           else m2
+  end.
+
+Inductive mop :=
+| MTick (d : Z)
+| MStart (szss : list (list Z))      (* per log: sizes of the records this run writes to it *)
+| MRun (szss : list (list Z))
+| MStop (szss : list (list Z)).
+
+Definition mstep (c : cfg) (m : mst) (o : mop) : mst :=
+  match o with
+  | MTick d => mset m (gnow m + d) (gactive m) (gflush m) (gcycle m)
+  | MStart szss =>
+      let m1 := mphase (fun _ => log_prepare) (mphase (fun _ => log_reopen (keep c)) m) in
+      let m2 := mlogger_log c szss m1 in
+      mset m2 (gnow m2) true (gflush m2) (gcycle m2)
+  | MRun szss => if gactive m then mlogger_log c szss m else m
+  | MStop szss =>
+      if gactive m then
+        let m1 := mlogger_log c szss m in
+        let m2 := if (negb (Nat.eqb (keep c) O)) && reuse c
+                  then mphase (fun _ => log_cycle c (fsize c)) m1 else m1 in
+        let m3 := mphase (fun _ => log_close) m2 in
+        mset m3 (gnow m3) false (gflush m3) (gcycle m3)
+      else m
+  end.
+
+(* a fresh Logger process with one Log per element of ds = (disk, next, dropped) *)
+Definition minit (c : cfg) (t0 : Z) (ds : list (list (option content) * nat * nat)) (fu : option nat) : mst :=
+  {| lgs := map (fun d => init c t0 (fst (fst d)) (snd (fst d)) (snd d) None) ds;
+     gnow := t0; gactive := false; gflush := 0; gcycle := 0; gfu := fu; gcr := false |}.
+
+Definition mrunfrom (c : cfg) (m : mst) (ops : list mop) : mst := fold_left (mstep c) ops m.
+Definition mrun (c : cfg) (nlogs : nat) (t0 : Z) (fu : option nat) (ops : list mop) : mst :=
+  mrunfrom c (minit c t0 (repeat (empty_disk c, O, O) nlogs) fu) ops.
+(* the next process on the directory left by m *)
+Definition mnext (c : cfg) (m : mst) : mst :=
+  minit c (gnow m) (map (fun s => (files s, next s, dropped s)) (lgs m)) None.
